@@ -19,6 +19,9 @@ _P = 'NoteSeqVerif.Props.C05'
 _F = 'NoteSeqVerif.Props.C05_float'      # the timing clause for every `Rounding R` (uses Proofs/Rounding*, Proofs/C05Float)
 MODULES = ['NoteSeqVerif.Proofs.C05Float', _F, _P]
 EXE = 'drv_c05'
+# translator tie T2 (gen/translit2.py): seconds moved by <backup> / <forward>, by symbolic execution of the current source
+BRIDGE = 'NoteSeqVerif.Props.C05_bridge'
+BRIDGE_THEOREMS = ['NSV.C05.t2_backup_seconds', 'NSV.C05.t2_forward_seconds']
 THEOREMS = [(_P, 'NSV.C05.' + t) for t in (
     'mxml_chord_onset_exact', 'mxml_pitch', 'mxml_pitch_steps', 'mxml_key', 'mxml_key_table', 'mxml_key_transpose',
     'mxml_cursor', 'mxml_time_partial', 'mxml_time_first_part', 'mxml_part_start', 'mxml_time_later_part_partial',
@@ -121,6 +124,14 @@ def _generate(chk):
            % lean_list('(%s, %s)' % (lean_int(k), lean_str(v)) for k, v in alters)
            + 'end NSV.C05.Gen\n')
     chk.regenerate('NoteSeqVerif/Generated/C05.lean', txt)
+    # translator tie T2: the duration -> seconds arithmetic of <backup> / <forward> by symbolic execution
+    from harness.t2 import generate_t2
+    cur = {'int(xml_duration.text)': ('d', 'int'), 'self.state.divisions': ('divisions', 'int'),
+           'self.state.seconds_per_quarter': ('spq', 'float')}
+    generate_t2(chk, 'C05', [
+        dict(fn=mp.Measure._parse_backup, module=mp, name='backup', paths=cur, export=['seconds']),
+        dict(fn=mp.Measure._parse_forward, module=mp, name='forward', paths=cur, export=['seconds']),
+    ])
 
 
 # ============================================================================= abstract score
@@ -1467,6 +1478,7 @@ def run(chk):
         'xml.etree.ElementTree, zipfile, int()/float() text conversion: MODELLED, NOT VERIFIED - the harness renders each '
         'abstract score to MusicXML text / a compressed .mxl for the real parser and to wire tokens for the model',
         'Python fractions.Fraction normal form = core Lean Rat normal form'])
+    chk.prove_bridge([BRIDGE], [(BRIDGE, t) for t in BRIDGE_THEOREMS])
     chk.rule = ('abstract scores of the quantifier (1-3 parts, 1-6 complete measures, divisions {1..16,24,96,480,960} with '
                 'whole-beat constraint, meters n/4 n/8 n/2 with changes, fifths -7..7 x mode major/minor/absent with key changes per part or '
                 'shared by all non-transposing parts (incl. the way back to the first key), tempo marks at '
